@@ -31,9 +31,22 @@ run a04-random-caps-one-draw C04,C05,C06 0
 run a05-separators-first C04,C05,C06 0
 run a06-reject-low-values C01,C09 0
 run a09-wl-entropy-float64-skip-sep-when-no-gap C04,C06,C08 0
-run a11-small-recipes-pick-from-list C02,C03,C06,C13,C16 0
+run a11-small-recipes-pick-from-list C02,C03,C06,C13 0
+run a11-small-recipes-pick-from-list C16 0,2 only
 run a13-undefined-flag-bits-rejected C02,C03,C07 0
+# round 2
+run c10-single-word-list-no-draw C04,C10 0
+run c11-tokenize-rejects-noncanonical-kind C11,C12 0
+run c13-unknown-capscheme-is-an-error C05,C08,C13 0
+run c17-explicit-empty-class-list-means-none C17 0
+run c17-word-file-one-entry-per-line C17 0
+run c18-rejection-count-singular-plural C18 0
+run retry-alternates-fill-direction C02,C06,C13 0
+run wl-assembled-back-to-front C04,C05,C06 0
 # changes that break ONE property: the other checks must stay silent
+run x16-symbols-class-has-hash C02,C03,C07,C13,C15,C17 0 only
+run wordlist-keeps-clean-input-slice C04,C05,C06 0 only
+run xprop-c05-empty-separator-token C04,C06,C09 0 only
 run a07-requiresets-sorted-in-place C02,C03 0 only
 run a08-one-more-trial C02,C06 0 only
 # variants that break the hook contract (announce-then-read one 32-bit word)
@@ -41,6 +54,7 @@ run char-candidate-batch-read C02,C03,C09,C13 0,2
 run read-one-byte-at-a-time C01,C09 0,2
 run read8-use4 C01,C09 0,2
 run a10-wl-reads-ahead-per-call C01,C04,C06 0,2
+run c13-char-generate-reads-ahead-per-call C02,C13 0,2
 # variants that depart from a documented reference (DESIGN 7): only against
 # checks that do not own that reference
 run kind4-sep-first-alternating C11 0 only
